@@ -877,11 +877,22 @@ Proof. exists 65535. vm_compute. auto. Qed.
 
 Lemma xmlstring_outside_known c :
   is_scalar c = true -> known_nonchar c = false -> xmlstring_keeps c = true -> xml_char c = true.
-Proof. unfold is_scalar, known_nonchar, xmlstring_keeps, xml_char. lia. Qed.
+Proof.
+  unfold is_scalar, known_nonchar, xmlstring_keeps, ansi_strip_keeps, xmlstring_filter_keeps, xml_char.
+  lia.
+Qed.
 
-Lemma xmlstring_strips_only_invalid c :
-  xmlstring_keeps c = false -> xml_char c = false.
-Proof. unfold xmlstring_keeps, xml_char. lia. Qed.
+(* what survives: everything from U+0020 up, and LF *)
+Lemma xmlstring_keeps_spec c : xmlstring_keeps c = true <-> (32 <= c \/ c = 10).
+Proof. unfold xmlstring_keeps, ansi_strip_keeps, xmlstring_filter_keeps. lia. Qed.
+
+(* the legal XML characters that are nevertheless removed: TAB and CR (dropped by the escape
+   stripper; the replace() filter would have kept them) *)
+Lemma xmlstring_lost_chars c :
+  (xml_char c = true /\ xmlstring_keeps c = false) <-> (c = 9 \/ c = 13).
+Proof.
+  unfold xmlstring_keeps, ansi_strip_keeps, xmlstring_filter_keeps, xml_char. lia.
+Qed.
 
 Lemma finished_counts_events n evs :
   finished_count (run_stats n evs) = len (finished_ids evs)
